@@ -2,12 +2,14 @@ package rules
 
 import (
 	"fmt"
+	"go/token"
 	"go/types"
 	"sort"
 	"strings"
 
 	"golang.org/x/tools/go/ssa"
 
+	"verif/checker/esp"
 	"verif/checker/flow"
 	"verif/checker/load"
 )
@@ -22,6 +24,7 @@ func init() {
 			"R4 every exported field of the signed messages (VMGoldenMeasurement, VMSevSnp, VMTdx, VMTdx_Measurement) has a writer in S whose value derives from the request/context source listed in the rule's table (fields outside the table must at least have a writer); exempt: VMSevSnp.CaBundle (never populated by design). " +
 			"R5 per-count loop: the key of each stored SNP measurement is the loop variable over the requested counts and the value is LaunchDigest called with Vcpus assigned from that variable in the same iteration. " +
 			"R7 every sev.LaunchOptions object built in a function that receives the request gets Product from the request before it is used. R8 an options object created outside a loop has every field that the loop changes re-assigned before each measurement in the loop (no setting leaks from one entry to the next). R6 SignDoc: Cert, CaBundle and Timestamp are stored before the single proto.Marshal of the document and nothing is stored afterwards. " +
+			"R9 a function that assigns the SVN of one technology's request assigns the other technology's on every successful path unless that request is nil / dropped (the SVN side file reaches every endorsed technology). " +
 			"Not covered: that each digest equals the launch measurement (C04/C05).",
 		Assumptions: []string{"go/types, go/ssa, VTA call graph", "bytes.Buffer writes do not fail", "generated protobuf struct fields are the message contents"},
 		Run:         runC06,
@@ -574,6 +577,110 @@ func runC06(c *Ctx) {
 		}
 	}
 	c.S.Floor("R8", "calls inside loops that reach a measurement primitive", 2, nLoopReach)
+
+	// ---- R9: the requested SVN reaches every requested technology ----
+	// A function that assigns the SVN of one technology's request (from a side file, a flag, …) assigns the other
+	// technology's too on every successful path, unless that technology is known not to be requested (its request
+	// is nil or is set to nil). ESP per function; the nil-ness of Context.SevSnp / Context.Tdx is a flag.
+	{
+		sevPkgP, tdxPkgP := repoPath("sev"), repoPath("tdx")
+		const (
+			bSnpSvn uint = iota
+			bTdxSvn
+			bSnpNil
+			bTdxNil
+		)
+		svnStore := func(in ssa.Instruction) int {
+			st, ok := in.(*ssa.Store)
+			if !ok {
+				return -1
+			}
+			fa, ok := st.Addr.(*ssa.FieldAddr)
+			if !ok {
+				return -1
+			}
+			switch {
+			case flow.IsFieldLoad(fa, sevPkgP, "SnpEndorsementRequest", "Svn"):
+				return 0
+			case flow.IsFieldLoad(fa, tdxPkgP, "EndorsementRequest", "Svn"):
+				return 1
+			case flow.IsFieldLoad(fa, endorsePkg, "Context", "SevSnp") && isNilK(st.Val):
+				return 2
+			case flow.IsFieldLoad(fa, endorsePkg, "Context", "Tdx") && isNilK(st.Val):
+				return 3
+			}
+			return -1
+		}
+		nFns := 0
+		for _, f := range c.P.RepoFunctions() {
+			if c.isTestFunc(f) || isTestingPkg(load.RelPkg(f)) {
+				continue
+			}
+			has := false
+			for _, b := range f.Blocks {
+				for _, in := range b.Instrs {
+					if k := svnStore(in); k == 0 || k == 1 {
+						has = true
+					}
+				}
+			}
+			if !has {
+				continue
+			}
+			nFns++
+			r := &esp.Rule{Name: "C06.R9"}
+			r.Flag = func(v ssa.Value) (int, bool) {
+				if u, ok := v.(*ssa.UnOp); ok && u.Op == token.MUL {
+					if flow.IsFieldLoad(v, endorsePkg, "Context", "SevSnp") {
+						return 0, true
+					}
+					if flow.IsFieldLoad(v, endorsePkg, "Context", "Tdx") {
+						return 1, true
+					}
+				}
+				return 0, false
+			}
+			r.Track = func(v ssa.Value) bool {
+				if ex, ok := v.(*ssa.Extract); ok {
+					b, isB := ex.Type().Underlying().(*types.Basic)
+					return isB && b.Kind() == types.Bool
+				}
+				return false
+			}
+			r.Relevant = func(g *ssa.Function) bool { return false }
+			r.Match = func(in ssa.Instruction) []esp.Ev {
+				if k := svnStore(in); k >= 0 {
+					return []esp.Ev{{ID: k, Name: [...]string{"SNP request SVN assigned", "TDX request SVN assigned", "SNP request dropped", "TDX request dropped"}[k], ErrIdx: -1, BoolIdx: -1}}
+				}
+				return nil
+			}
+			r.Step = func(x *esp.Ctx, s esp.State, ev esp.Ev, ph esp.Phase) (esp.State, string) {
+				if ph != esp.AtCall {
+					return s, ""
+				}
+				return s.Set(uint(ev.ID)), ""
+			}
+			ei := errIndex(f.Signature)
+			r.AtReturn = func(x *esp.Ctx, s esp.State, rets []esp.Abs) string {
+				if ei >= 0 && ei < len(rets) && rets[ei] == esp.NonZero {
+					return ""
+				}
+				if s.Has(bSnpSvn) && !s.Has(bTdxSvn) && !s.Has(bTdxNil) && s.Flag(1) != esp.Zero {
+					return "R9: the SVN is assigned to the SEV-SNP request only, on a path where the TDX request may be present: the TDX part of the document is signed with SVN 0"
+				}
+				if s.Has(bTdxSvn) && !s.Has(bSnpSvn) && !s.Has(bSnpNil) && s.Flag(0) != esp.Zero {
+					return "R9: the SVN is assigned to the TDX request only, on a path where the SEV-SNP request may be present: the SEV-SNP part of the document is signed with SVN 0"
+				}
+				return ""
+			}
+			e := c.engine(r)
+			e.Run(f, esp.State{})
+			if c.reportEngine(e, "R9", func(v *esp.Violation) string { return load.FuncName(f) + ":SVN for every technology" }) == 0 {
+				c.S.OK("R9", load.FuncName(f)+":SVN for every technology", c.pos(f.Pos()), fmt.Sprintf("both requests receive the SVN wherever one does (%d configurations)", e.Configs), true)
+			}
+		}
+		c.S.Floor("R9", "functions assigning a request's SVN", 1, nFns)
+	}
 
 	// ---- R6 ----
 	var marshals []*ssa.Call
